@@ -2,6 +2,7 @@ import SwiftMT.Dispatch
 import SwiftMT.MParser
 import SwiftMT.Calendar
 import SwiftMT.Amount
+import SwiftMT.Headers
 import Driver.Hex
 /-
 Line-protocol driver over the executable model: one request per line on stdin, one answer per line on
@@ -108,6 +109,15 @@ def handle (args : List String) : String :=
     | _, _ => "bad-op"
   | ["amtccy", i, c] => match unhex i, unhex c with
     | some t, some ccy => (match roundTripAmount t ccy with | some o => s!"some {hex o}" | none => "none")
+    | _, _ => "bad-op"
+  | ["hdr", "basic", i] => match unhex i with
+    | some t => (match BasicHeader.parse t with | some h => s!"ok {hex h.display}" | none => "err")
+    | none => "bad-op"
+  | ["hdr", "application", i] => match unhex i with
+    | some t => (match AppHeader.parse t with | some h => s!"ok {hex h.display}" | none => "err")
+    | none => "bad-op"
+  | ["blk", n, i] => match n.toNat?, unhex i with
+    | some n, some t => (match extractBlock t n with | some b => s!"some {hex b}" | none => "none")
     | _, _ => "bad-op"
   | "mp" :: i :: ops => match unhex i with
     | some input => ";".intercalate (mpRun (PState.init input) ops)
